@@ -435,6 +435,11 @@ def cumsum(E, a: Tensor):
     E.st.ghost.setdefault("cumsums", []).append(t)
     if t.monotone:
         E.st.assume_forall([INT, INT], lambda i, j: z3.Implies(z3.And(i >= 0, i <= j, j < nz), cs(i) <= cs(j)), "cumsum.monotone")
+    # mirror image (same lemma applied to -x): all summands <= 0 => non-increasing
+    prem2 = z3.Implies(z3.And(sk >= 0, sk < nz), x(sk) <= 0)
+    v2, *_ = prove(E.st.pc, E.st.qfacts, prem2, extra_pool=list(E.st.pool) + [sk], timeout_ms=4000, quick=True)
+    if v2 == "unsat":
+        E.st.assume_forall([INT, INT], lambda i, j: z3.Implies(z3.And(i >= 0, i <= j, j < nz), cs(i) >= cs(j)), "cumsum.antitone")
     return t
 
 
@@ -445,7 +450,7 @@ def cumsum_monotone(E, t, name="cumsum.monotone"):
     a = t.cumsum_of
     n = T.dim_z(a.shape[0])
     cs = t.cs
-    E.st.oblige_forall(f"{name}.premise_nonneg", [INT], lambda i: z3.Implies(z3.And(i >= 0, i < n), C.as_num(a.at(i)) >= 0), hint="i")
+    E.st.oblige_forall(f"{name}.premise_nonneg", [INT], lambda i: z3.Implies(z3.And(i >= 0, i < n), C.as_num(a.at(i)) >= 0), hint="i", using=["PWF", "sample.interval_law", "sampling.interval_law", "gather.inb"])
     E.st.assume_forall([INT, INT], lambda i, j: z3.Implies(z3.And(i >= 0, i <= j, j < n), cs(i) <= cs(j)), name)
 
 
